@@ -230,3 +230,49 @@ Proof.
     intros c. rewrite (bal_sub_amt_exact _ _ _ _ c Hd4), He. ring.
   - left. exists e. split; [symmetry; exact Hr|]. intros ->. exact (bal_sub_amt_error _ _ _ _ Hd4).
 Qed.
+
+(* ---- `apply account` ---- *)
+Lemma qualify_app s1 s2 name : qualify (s1 ++ s2) name = qualify s1 (qualify s2 name).
+Proof. unfold qualify. apply fold_right_app. Qed.
+
+Lemma qualify_length stack name : (length name <= length (qualify stack name))%nat.
+Proof.
+  induction stack as [|n stack IH]; cbn [qualify fold_right]; [apply le_n|].
+  fold (qualify stack name). rewrite app_length. cbn [length]. lia.
+Qed.
+
+(* the name as written and the account it belongs to inside a block are two accounts *)
+Lemma qualify_other_account n stack name : str_eqb name (qualify (n :: stack) name) = false.
+Proof.
+  destruct (str_eqb name (qualify (n :: stack) name)) eqn:E; [|reflexivity].
+  apply str_eqb_spec in E. apply (f_equal (@length Z)) in E.
+  cbn [qualify fold_right] in E. fold (qualify stack name) in E. rewrite app_length in E. cbn [length] in E.
+  pose proof (qualify_length stack name). lia.
+Qed.
+
+(* inside one block different written names are different accounts *)
+Lemma qualify_injective stack a b : qualify stack a = qualify stack b -> a = b.
+Proof.
+  induction stack as [|n stack IH]; cbn [qualify fold_right]; [exact (fun H => H)|].
+  fold (qualify stack a) (qualify stack b). intros H. apply app_inv_head in H. injection H as H. apply IH. exact H.
+Qed.
+
+(* so a posting written `name` outside the block does not count for a `= AMOUNT` on `name` inside it *)
+Lemma apply_account_consults_the_qualified_account hist n stack name ro c h :
+  a_acct h = name ->
+  running (hist ++ [h]) (qualify (n :: stack) name) ro c == running hist (qualify (n :: stack) name) ro c.
+Proof. intros <-. apply running_other_account. apply qualify_other_account. Qed.
+
+(* ---- the postings of a transaction are judged in the order they are written: reading ws1 ++ ws2 is reading ws1, then
+   ws2 with the resolved ws1 as the earlier postings - nothing of ws2 is known while ws1 is judged ---- *)
+Lemma resolve_posts_app ord permissive hist : forall ws1 ws2 pl earlier,
+  resolve_posts ord permissive pl hist earlier (ws1 ++ ws2) =
+  match resolve_posts ord permissive pl hist earlier ws1 with
+  | (Ok ps, pl') => resolve_posts ord permissive pl' hist (rev ps) ws2
+  | (Err e, pl') => (Err e, pl')
+  end.
+Proof.
+  induction ws1 as [|w ws1 IH]; intros ws2 pl earlier; cbn [app resolve_posts].
+  - rewrite rev_involutive. reflexivity.
+  - destruct (resolve_assigned ord _ permissive hist (rev earlier) w) as [p|e]; [apply IH|reflexivity].
+Qed.
